@@ -112,3 +112,9 @@ package slip
 //@ func slip.(Code).Compile
 //@   property C08
 //@   full-loop rangeindex
+
+// C04 / C08: calling a lambda never changes its lambda list (names and
+// default forms are shared by every later call).
+//@ func slip.(*Lambda).Call
+//@   property C04 C08
+//@   no-store Default Name Args
